@@ -133,10 +133,28 @@ func VH_C16_CondRow(p []int) {
 	}
 	for k := 0; k < p[0]; k++ {
 		sel := vhRowKinds[nondetChoice(p[3])]
-		if k == 3-1 && nondetChoice(2) == 1 {
-			// expression position: also try a nested envelope
-			row = append(row, []any{"OR", "x", "y"})
-			continue
+		if k == 3-1 {
+			// expression position: also nested envelopes, decodable or not
+			switch nondetChoice(7) {
+			case 1:
+				row = append(row, []any{"OR", "x", "y"})
+				continue
+			case 2:
+				row = append(row, []any{})
+				continue
+			case 3:
+				row = append(row, []any{[]any{}})
+				continue
+			case 4:
+				row = append(row, []any{5, 6})
+				continue
+			case 5:
+				row = append(row, []any{"CONDITION", "short"})
+				continue
+			case 6:
+				row = append(row, []any{[]any{7, "x"}})
+				continue
+			}
 		}
 		v, _, _ := vhMarshalEntry(sel)
 		row = append(row, v)
@@ -153,6 +171,19 @@ func VH_C16_CondRow(p []int) {
 	if p[1] == 1 && err == nil && s.IsInit() {
 		verifAssert(s.Kind() == "AND", "outer-kind")
 		verifAssert(s.Len() == 2, "outer-len")
+		// nothing undecoded is left behind without an error
+		el, _ := s.Index(1)
+		_, raw := el.([]any)
+		verifAssert(!raw, "no-raw-row-left-without-error")
+	}
+	// an initialised receiver gains exactly one element when no error is reported
+	r2 := And().Push("have")
+	if p[1] == 0 {
+		if err2 := r2.Marshal(row...); err2 == nil {
+			verifAssert(r2.Len() == 2, "initialised-receiver-gains-one")
+		} else {
+			verifAssert(r2.Len() == 1, "error-leaves-receiver-alone")
+		}
 	}
 	verifReach("end")
 }
